@@ -35,14 +35,16 @@ Bypass  == {"none", "route", "ip", "spoof_uri", "spoof_ip", "peer_garbage", "pee
 RealBypass == {"route", "ip"}
 ErrModes == {"page", "force_json", "accept_json", "api_route"}
 
-Cfgs == [store : {"cookie", "redis"}, preflight : BOOLEAN, forceJSON : BOOLEAN, spb : BOOLEAN, bearer : BOOLEAN, htpasswd : BOOLEAN, customPrefix : BOOLEAN, rp : BOOLEAN]
+Cfgs == [store : {"cookie", "redis"}, preflight : BOOLEAN, forceJSON : BOOLEAN, spb : BOOLEAN, bearer : BOOLEAN, htpasswd : BOOLEAN, customPrefix : BOOLEAN, rp : BOOLEAN, expire0 : BOOLEAN]      \* expire0: cookie-expire = 0 (no age limit)
 
 \* ---- requirement -------------------------------------------------------------------------------
 UserAuthorised(u) == u = "alice"
 \* does the request carry a credential this proxy accepts, and for whom
 CredValid(c, cfg) ==
     CASE c \in {"valid", "aged_valid", "valid_plus_badbearer"}     -> TRUE
-      [] c \in {"bearer_valid", "expired_plus_goodbearer"}          -> cfg.bearer
+      [] c = "expired"                                              -> cfg.expire0        \* without an age limit an old credential is simply valid
+      [] c = "expired_plus_goodbearer"                              -> cfg.expire0 \/ cfg.bearer
+      [] c \in {"bearer_valid"}                                     -> cfg.bearer
       [] c = "basic_valid"                                           -> cfg.htpasswd
       [] OTHER                                                       -> FALSE
 \* the identity behind the credential: the given user, or the htpasswd user (exempt from e-mail rules, group g1)
@@ -75,7 +77,7 @@ Impl_Class(r, cfg) ==
 \* ---- cases ---------------------------------------------------------------------------------------
 Mk(cfg, cred, u, ep, m, bp, em) == [cfg |-> cfg, cred |-> cred, user |-> u, endpoint |-> ep, method |-> m, bypass |-> bp, errmode |-> em]
 
-DefaultCfg(cfg) == ~cfg.preflight /\ ~cfg.forceJSON /\ ~cfg.spb /\ cfg.bearer /\ cfg.htpasswd /\ ~cfg.customPrefix /\ ~cfg.rp
+DefaultCfg(cfg) == ~cfg.preflight /\ ~cfg.forceJSON /\ ~cfg.spb /\ cfg.bearer /\ cfg.htpasswd /\ ~cfg.customPrefix /\ ~cfg.rp /\ ~cfg.expire0
 InScope(c) ==
     /\ (c.cred = "ticket_no_entry" => c.cfg.store = "redis")
     /\ (c.errmode = "force_json" <=> c.cfg.forceJSON)
@@ -85,6 +87,8 @@ InScope(c) ==
     /\ (c.user = "erin" => c.cred = "bearer_valid")
     /\ (c.bypass \in {"spoof_uri", "spoof_ip"} => c.endpoint \in {"proxy", "authonly"} /\ c.errmode \in {"page", "force_json", "accept_json"} /\ ~c.cfg.rp)
     /\ (c.bypass \in {"peer_garbage", "peer_absent"} <=> (c.cfg.rp /\ c.bypass \notin {"none", "route", "ip"}))
+    /\ (c.cfg.expire0 => c.endpoint \in {"proxy", "authonly", "userinfo"} /\ c.errmode = "page" /\ c.method = "GET" /\ c.bypass = "none" /\ c.user = "alice"
+                         /\ c.cred \in {"none", "valid", "expired", "tamper_value", "tamper_ts", "tamper_sig", "other_secret", "csrf_as_session", "garbage", "ticket_no_entry"})
     /\ (c.cfg.rp => c.endpoint \in {"proxy", "authonly"} /\ c.errmode = "page" /\ c.method = "GET" /\ c.cfg.store = "cookie"
                     /\ c.cred \in {"none", "valid", "tamper_sig", "bearer_valid"})
     /\ (c.endpoint \notin {"proxy", "authonly", "userinfo"} => c.method = "GET" /\ c.bypass = "none" /\ c.errmode = "page"
@@ -106,11 +110,11 @@ InScope(c) ==
           /\ (c.method = "POST" => c.cred \in {"none", "valid", "expired", "bearer_valid"})
           /\ (c.method \in {"HEAD", "DELETE"} => c.cred \in {"none", "valid", "tamper_sig"} /\ c.user = "alice" /\ DefaultCfg(c.cfg))
           /\ (c.errmode \in {"accept_json", "api_route"} => c.cred \in {"none", "valid", "expired", "tamper_value", "bearer_otherkey"} /\ c.method = "GET")
-          /\ (~DefaultCfg(c.cfg) => Cardinality({f \in {"preflight", "forceJSON", "spb", "customPrefix", "rp"} : c.cfg[f]} \cup {f \in {"bearer", "htpasswd"} : ~c.cfg[f]}) = 1))
+          /\ (~DefaultCfg(c.cfg) => Cardinality({f \in {"preflight", "forceJSON", "spb", "customPrefix", "rp", "expire0"} : c.cfg[f]} \cup {f \in {"bearer", "htpasswd"} : ~c.cfg[f]}) = 1))
 
 VARIABLE c
 \* (the configurations of the tier are selected first: the nested enumeration below then only runs over those)
-Away(cfg) == Cardinality({f \in {"preflight", "forceJSON", "spb", "customPrefix", "rp"} : cfg[f]} \cup {f \in {"bearer", "htpasswd"} : ~cfg[f]})
+Away(cfg) == Cardinality({f \in {"preflight", "forceJSON", "spb", "customPrefix", "rp", "expire0"} : cfg[f]} \cup {f \in {"bearer", "htpasswd"} : ~cfg[f]})
 TierCfgs == IF Tier = "quick" THEN {cfg \in Cfgs : Away(cfg) <= 1} ELSE Cfgs
 Init == \E cfg \in TierCfgs, cred \in Creds, u \in Users, ep \in Endpoints, m \in Methods, bp \in Bypass, em \in ErrModes :
           c = Mk(cfg, cred, u, ep, m, bp, em) /\ InScope(c)
